@@ -1736,16 +1736,16 @@ Section RT.
     | _ => False
     end.
 
-  Theorem codec_roundtrip root m txt :
+  Theorem codec_roundtrip_print root m txt :
     rep_root root m -> encode fmt_float any_inner env root m = Ok txt ->
-    exists J, strict_parse txt = Some J /\
+    exists J, txt = print J /\ wfb J = true /\
       (N.of_nat (jnest J) <= max_nesting ->
        exists m', decode_tree dsc raw mapchk env root J = Ok m' /\ equiv_root root m m').
   Proof.
     unfold rep_root, equiv_root, encode, encode_fuel, decode_tree, decode_tree_fuel. intros Hrep H.
     set (f := (4 * pval_depth (VMsg m) + 4)%nat) in *. destruct (T_all f) as (_ & TOb & TOn).
     destruct (lookup env root) as [[ps|ps|]|] eqn:Elk; try contradiction.
-    - destruct (TOb _ _ _ H Hrep) as (ms & -> & Hw & Hd). exists (JObj ms). split; [apply parse_print; exact Hw|].
+    - destruct (TOb _ _ _ H Hrep) as (ms & -> & Hw & Hd). exists (JObj ms). split; [reflexivity|]. split; [exact Hw|].
       intros Hn. rewrite jnest_obj in Hn.
       destruct (Hd (3 * jsize (JObj ms) + 3)%nat 0) as (b & Hb & Heq).
       { rewrite jsize_obj. lia. } { unfold depth_ok. lia. }
@@ -1754,11 +1754,21 @@ Section RT.
       pose proof (leaves_flat ps (Hflat _ _ Elk)) as Hlv.
       destruct (TOn root ps m txt Elk H) as (ms & -> & Hw & Hd).
       { intros q w Hq Hw. apply (Hvals q w); [rewrite Hlv; exact Hq|exact Hw]. }
-      exists (JObj ms). split; [apply parse_print; exact Hw|].
+      exists (JObj ms). split; [reflexivity|]. split; [exact Hw|].
       intros Hn. rewrite jnest_obj in Hn.
       destruct (oneof_fresh root ps m ms (3 * jsize (JObj ms) + 3)%nat 0 Elk Hrep Hd) as (b & Hb & Heq).
       { rewrite jsize_obj. lia. } { unfold depth_ok. lia. }
       exists b. split; assumption.
+  Qed.
+
+  Theorem codec_roundtrip root m txt :
+    rep_root root m -> encode fmt_float any_inner env root m = Ok txt ->
+    exists J, strict_parse txt = Some J /\
+      (N.of_nat (jnest J) <= max_nesting ->
+       exists m', decode_tree dsc raw mapchk env root J = Ok m' /\ equiv_root root m m').
+  Proof.
+    intros Hrep H. destruct (codec_roundtrip_print root m txt Hrep H) as (J & -> & Hw & Hd).
+    exists J. split; [apply parse_print; exact Hw|exact Hd].
   Qed.
 
   (* ---------------------------------------------------------------- the static conditions, decided *)
